@@ -378,7 +378,7 @@ impl Parser {
                             }
                         }
                     },
-                    Lexem::Operator(s) if s.eq("rx") => {
+                    Lexem::Operator(s) if s.eq_ignore_ascii_case("rx") => {
                         regexp = true;
                         mode = RootParsingMode::Options;
                     }
@@ -537,7 +537,7 @@ impl Parser {
 
         let lexem = self.next_lexem();
         let mut result = match lexem {
-            Some(Lexem::Operator(s)) if s.as_str() == "between" => {
+            Some(Lexem::Operator(s)) if s.to_ascii_lowercase() == "between" => {
                 let left_between = self.parse_add_sub()?;
 
                 let and_lexem = self.next_lexem();
